@@ -1062,6 +1062,8 @@ class Engine:
             v = st.env.get(node.id)
             if isinstance(v, SExc):
                 return v
+            if isinstance(v, z3.ExprRef) and v.sort() == U:
+                return SExc(term=v)  # `raise exc` of an exception object obtained from a modelled call
             return SExc(node.id)
         raise Undecided('raise of %s' % ast.unparse(node))
 
@@ -1269,7 +1271,14 @@ class Engine:
         if node.finalbody:
             res = []
             for s1, oc in outs:
+                # while the finally block runs for a propagating exception, that exception is the one being handled
+                # (sys.exc_info() / a bare `raise` see it)
+                prev = s1.env.get('__current_exc__')
+                if oc[0] == 'raise':
+                    s1.env['__current_exc__'] = oc[1]
                 for s2, oc2 in self.exec_block(node.finalbody, s1):
+                    if oc[0] == 'raise':
+                        s2.env['__current_exc__'] = prev
                     res.append((s2, oc if oc2[0] == 'next' else oc2))
             outs = res
         return outs
